@@ -151,6 +151,12 @@ def _analyze_node(node, config: Config, cwd: Path, *, remote: bool = False) -> D
         if hasattr(node, "word") and node.word:
             decisions.extend(_analyze_word_parts(node.word, config, cwd, remote=remote))
         for pattern in node.patterns:
+            # Patterns are expanded by bash: a|$(cmd)) runs cmd
+            pattern_text = getattr(pattern, "pattern", None)
+            if isinstance(pattern_text, str):
+                decisions.extend(
+                    _analyze_string_cmdsubs(pattern_text, config, cwd, remote=remote)
+                )
             if hasattr(pattern, "body") and pattern.body:
                 decisions.append(
                     _analyze_node(pattern.body, config, cwd, remote=remote)
@@ -196,19 +202,7 @@ def _analyze_node(node, config: Config, cwd: Path, *, remote: bool = False) -> D
 
     elif kind == "arith-cmd":
         # (( expr )) - check for command substitutions in the expression
-        decisions = []
-        for cmdsub in _find_cmdsubs_in_arith(node.expression):
-            inner_decision = _analyze_node(cmdsub.command, config, cwd, remote=remote)
-            if inner_decision.action != "allow":
-                decisions.append(
-                    Decision(
-                        inner_decision.action,
-                        f"arithmetic cmdsub: {inner_decision.reason}",
-                        children=[inner_decision],
-                    )
-                )
-            else:
-                decisions.append(inner_decision)
+        decisions = _analyze_expansion(node.expression, config, cwd, remote=remote)
         decisions.extend(_analyze_redirects(node, config, cwd, remote=remote))
         return _combine(decisions) if decisions else Decision("allow", "arithmetic")
 
@@ -293,13 +287,15 @@ def _analyze_command(
                         decisions.append(
                             Decision("ask", f"cmdsub injection risk: {inner_cmd}")
                         )
-            elif part_kind == "param":
-                # Parameter expansion - check for cmdsubs in arg (raw string)
-                arg = getattr(part, "arg", None)
-                if arg and isinstance(arg, str):
-                    decisions.extend(
-                        _analyze_string_cmdsubs(arg, config, cwd, remote=remote)
-                    )
+            else:
+                # Any other expansion (parameter, arithmetic, array literal, ...):
+                # find every substitution nested anywhere inside it
+                decisions.extend(_analyze_expansion(part, config, cwd, remote=remote))
+        if not parts:
+            # No parsed parts (e.g. a[$(cmd)]=1): scan the raw text
+            decisions.extend(
+                _analyze_string_cmdsubs(word_value, config, cwd, remote=remote)
+            )
 
     # 2. Check redirects
     decisions.extend(_analyze_redirects(node, config, cwd, remote=remote))
@@ -514,23 +510,6 @@ def _strip_quotes(value: str) -> str:
     return value
 
 
-def _find_cmdsubs_in_arith(node) -> list:
-    """Recursively find command substitutions in an arithmetic expression AST."""
-    results = []
-    if node is None:
-        return results
-    kind = getattr(node, "kind", None)
-    if kind == "cmdsub":
-        results.append(node)
-        return results
-    # Walk all child attributes that might contain nested expressions
-    for attr in ("value", "target", "left", "right", "operand", "index", "expression"):
-        child = getattr(node, attr, None)
-        if child is not None:
-            results.extend(_find_cmdsubs_in_arith(child))
-    return results
-
-
 def _analyze_cond_node(
     node, config: Config, cwd: Path, *, remote: bool = False
 ) -> list[Decision]:
@@ -595,14 +574,53 @@ def _analyze_word_parts(
                 )
             else:
                 decisions.append(inner_decision)
-        elif part_kind == "param":
-            # Parameter expansion - check for cmdsubs in arg value (raw string)
-            # ${x:-$(cmd)}, ${x:=$(cmd)}, ${x:+$(cmd)}, ${x:?$(cmd)}
-            arg = getattr(part, "arg", None)
-            if arg and isinstance(arg, str):
-                decisions.extend(
-                    _analyze_string_cmdsubs(arg, config, cwd, remote=remote)
-                )
+        else:
+            # Parameter, arithmetic, array, ... expansion: generic descent
+            decisions.extend(_analyze_expansion(part, config, cwd, remote=remote))
+    if not parts:
+        # No parsed parts (e.g. subscripted name in [[ ]]): scan the raw text
+        value = getattr(word, "value", None)
+        if isinstance(value, str):
+            decisions.extend(_analyze_string_cmdsubs(value, config, cwd, remote=remote))
+    return decisions
+
+
+def _analyze_expansion(
+    node, config: Config, cwd: Path, *, remote: bool = False
+) -> list[Decision]:
+    """Analyze every substitution nested anywhere inside an expansion node.
+
+    Generic descent: every attribute holding a node (or list of nodes) is
+    visited, and every raw string attribute is scanned for $(...) and backticks,
+    so no position inside the expansion can be skipped.
+    """
+    decisions: list[Decision] = []
+    if node is None:
+        return decisions
+    kind = getattr(node, "kind", None)
+    if kind in ("cmdsub", "procsub"):
+        inner_decision = _analyze_node(node.command, config, cwd, remote=remote)
+        if inner_decision.action != "allow":
+            inner_decision = Decision(
+                inner_decision.action,
+                f"{kind}: {inner_decision.reason}",
+                children=[inner_decision],
+            )
+        decisions.append(inner_decision)
+        return decisions
+    if kind == "word":
+        return _analyze_word_parts(node, config, cwd, remote=remote)
+    for value in vars(node).values():
+        if isinstance(value, str):
+            decisions.extend(_analyze_string_cmdsubs(value, config, cwd, remote=remote))
+        elif isinstance(value, list):
+            for item in value:
+                if hasattr(item, "kind"):
+                    decisions.extend(
+                        _analyze_expansion(item, config, cwd, remote=remote)
+                    )
+        elif hasattr(value, "kind"):
+            decisions.extend(_analyze_expansion(value, config, cwd, remote=remote))
     return decisions
 
 
